@@ -125,6 +125,7 @@ Definition static_audit : list ((string * string * string * list (string * strin
     (("XSLT/StylesheetExecutionContextDefault.hpp", "StylesheetExecutionContextDefault", "s_defaultXalanNumberFormatFactory", [("StylesheetExecutionContextDefault::getDefaultXalanNumberFormatFactory", "m"); ("StylesheetExecutionContextDefault::installXalanNumberFormatFactory", "w")]), ConfigAPI, "only its address is taken; create() is const-like");
     (("XSLT/StylesheetExecutionContextDefault.hpp", "StylesheetExecutionContextDefault", "s_xalanNumberFormatFactory", [("StylesheetExecutionContextDefault::createXalanNumberFormat", "w"); ("StylesheetExecutionContextDefault::installXalanNumberFormatFactory", "w")]), ConfigAPI, "pointer swapped only by the static installXalanNumberFormatFactory (configuration, not called by transformations); createXalanNumberFormat calls ->create()");
     (("XSLT/XSLTInit.cpp", "", "s_staticMemoryManager", [("XSLTInit::getMemoryManager", "m"); ("XSLTInit::initialize", "w"); ("XSLTInit::terminate", "w")]), InitOnly, "getMemoryManager reads the pointer");
+    (("XalanExtensions/FunctionEvaluate.cpp", "", "s_evaluateNestingDepth", [("storage class: thread_local", "t"); ("EvaluateNestingGuard::EvaluateNestingGuard", "w"); ("EvaluateNestingGuard::tooDeep", "m"); ("EvaluateNestingGuard::~EvaluateNestingGuard", "w")]), PerThread, "static thread_local (the census entry records the storage class: without it the entry differs and this audit no longer matches): one nesting counter per thread, incremented and decremented by an RAII guard around xalan:evaluate / dyn:evaluate (repair 7cbddfb); never reachable from another thread");
     (("XalanSourceTree/XalanSourceTreeDocument.hpp", "XalanSourceTreeDocument", "s_poolAllTextNodes", [("XalanSourceTreeDocument::getPoolAllTextNodes", "m"); ("XalanSourceTreeDocument::setPoolAllTextNodes", "w")]), ConfigAPI, "static setter (XalanTransformer::setPoolAllTextNodes), configuration; read when a document is constructed");
     (("XalanTransformer/XalanCAPI.cpp", "", "fInitialized", [("XalanInitialize", "w")]), InitOnly, "C API initialisation flag");
     (("XalanTransformer/XalanTransformer.hpp", "XalanTransformer", "s_emptyInputSource", [("XalanTransformer::initialize", "w"); ("XalanTransformer::terminate", "w"); ("XalanTransformer::transform", "m")]), InitOnly, "transform reads the pointer (const XSLTInputSource*)") ].
